@@ -582,7 +582,8 @@ func (c *Client) send(dest *net.UDPAddr, msg *dhcpv4.DHCPv4) (resp <-chan *dhcpv
 
 	ch := make(chan *dhcpv4.DHCPv4, c.bufferCap)
 	done := make(chan struct{})
-	c.pending[msg.TransactionID] = &pendingCh{done: done, ch: ch}
+	pc := &pendingCh{done: done, ch: ch}
+	c.pending[msg.TransactionID] = pc
 	vhook("SendRegistered", msg, ch)
 	c.pendingMu.Unlock()
 
@@ -598,7 +599,7 @@ func (c *Client) send(dest *net.UDPAddr, msg *dhcpv4.DHCPv4) (resp <-chan *dhcpv
 
 		vhook("CancelPreLock", msg, ch)
 		c.pendingMu.Lock()
-		if p, ok := c.pending[msg.TransactionID]; ok {
+		if p, ok := c.pending[msg.TransactionID]; ok && p == pc {
 			vhook("CancelRemoved", msg, p.ch)
 			close(p.ch)
 			delete(c.pending, msg.TransactionID)
